@@ -9,7 +9,7 @@ ROOT = os.path.dirname(os.path.dirname(os.path.abspath(__file__)))
 CHECKS = {
  "C10": ("runtime monitor: every ParsePath/String call judged by an independent recogniser of the stated grammar (two-sided) on generated hostile strings",
          "Exploration: ~0.8 M (quick) / 25 M (thorough) seeded strings and paths driven through the real ParsePath/String/MarshalText; each call is judged two-sidedly against a hand-written recogniser with big-integer decimal values. Held-on-observed, not a proof; the grammar-aware generator concentrates on leading zeros, the 2^31 boundary and malformed separators.",
-         "Trusts math/big decimal parsing and the recogniser (self-tested on literals at the start of every run). Unicode decimal digits other than ASCII are not generated.",
+         "Trusts math/big decimal parsing and the recogniser (self-tested on literals at the start of every run). Non-ASCII digits (all Nd/No/Nl runes) and look-alike characters are generated and must be rejected.",
          "DESIGN.md §3 C10"),
  "C01": ("runtime monitor: every ed25519.Verify call judged two-sidedly (accept iff ZIP-215 predicate) by an independent big-integer model; one-sided against crypto/ed25519",
          "Exploration: ~24 k (quick) / ~1.2 M (thorough) structured triples (honest, bit flips, S+jL for all j, 8x8 torsion shifts of A and R, every encoding of every small-order point, all y>=p encodings, undecodable points, wrong lengths, random) driven through the real Verify; verdict compared both ways with a math/big ZIP-215 model. Held-on-observed.",
@@ -20,11 +20,11 @@ CHECKS = {
          "Trusts crypto/ed25519, SHA-512 and harness/oracle/ed (self-tested on RFC 8032 vectors).",
          "DESIGN.md §3 C07"),
  "C18": ("runtime monitor: Prove bytes and two-sided Verify/decoding verdicts judged by an independent RFC 9381 model; uniqueness monitor over accepted proof variants",
-         "Exploration: ~13 k (quick) / ~700 k (thorough) cases: proofs for alpha of length 0..200 incl. multi-round try-and-increment, all single-bit flips of honest proofs, torsion-shifted / non-canonical / undecodable Gamma, s boundary values, all small-order and y>=p key encodings, forged proofs that verify iff validate_key is dropped, valid malleable-Gamma proofs (hash must not change), random and wrong-length strings; decode strictness two-sided.",
+         "Exploration: ~17 k (quick) / ~450 k (thorough) cases: proofs for alpha of length 0..200 incl. multi-round try-and-increment, all single-bit flips of honest proofs, torsion-shifted / non-canonical / undecodable Gamma, s boundary values, all small-order and y>=p key encodings, forged proofs that verify iff validate_key is dropped, valid malleable-Gamma proofs (hash must not change), random and wrong-length strings; decode strictness two-sided.",
          "Trusts SHA-512, math/big and harness/oracle/ecvrf (self-tested on the three RFC 9381 TAI examples). Non-canonical prime-order keys with known discrete log cannot be constructed; canonical-key checking is observed on the reject side only.",
          "DESIGN.md §3 C18"),
  "C02": ("runtime monitor: every node of stepwise and path derivations compared with an independent SLIP-0010 model; retry and permanent-error branches driven through fault-injecting pluggable curves",
-         "Exploration: ~4.8 k (quick) / 240 k (thorough) (curve, seed, path) cases on secp256k1, P-256, ed25519 and four harness-defined curves that declare a quarter of all candidates invalid (or return a permanent error for a sixteenth); each master/child/public node, each prefix via DeriveKeyFromPath and one public-side child per node is compared (key, chain code, serialized public key, fingerprint) with the model; undefined derivations must fail, permanent errors must surface.",
+         "Exploration: ~2.4 k (quick) / 60 k (thorough) (curve, seed, path) cases (every prefix of every path is a judged node) plus paths of 255..513 elements on secp256k1, P-256, ed25519 and four harness-defined curves that declare a quarter of all candidates invalid (or return a permanent error for a sixteenth); each master/child/public node, each prefix via DeriveKeyFromPath and one public-side child per node is compared (key, chain code, serialized public key, fingerprint) with the model; undefined derivations must fail, permanent errors must surface.",
          "Trusts HMAC-SHA512/SHA-256/RIPEMD-160 and harness/oracle/slip10m (self-tested on the published SLIP-0010 vectors incl. P-256 retry vectors). Retries on the real curves occur only at 2^-32 / 2^-127 and are exercised through the pluggable curves.",
          "DESIGN.md §3 C02"),
  "C03": ("runtime monitor: sentences and decode verdicts judged by a bit-level BIP-0039 model; both built-in word lists read through the API and compared index for index with the official lists",
@@ -52,7 +52,7 @@ CHECKS = {
          "Trusts BLAKE2b, float64 arithmetic and harness/oracle/curlp. Boundaries for k > 9 are not mined (cost 3^k).",
          "DESIGN.md §3 C11"),
  "C12": ("runtime monitor: lane verdicts of checkStateTrits (hook) on crafted bit-plane states judged by exact big-integer difficulty (sound / nothing passed over with margin); single-worker Mine scans re-hashed block by block by the model; Score and toInt against definitions",
-         "Exploration: ~60 k (quick) / 3 M (thorough) crafted 64-lane states incl. hashes at T-1, T, T+1 and difficulty exactly lx, ~250 / 12 k Mine runs (every skipped nonce re-hashed), 20 k / 1 M Score and toInt calls.",
+         "Exploration: ~60 k (quick) / 1.5 M (thorough) crafted 64-lane states incl. hashes at T-1, T, T+1 and difficulty exactly lx, ~250 / 6 k Mine runs (every skipped nonce re-hashed), 20 k / 0.5 M Score and toInt calls.",
          "Trusts BLAKE2b, math/big and harness/oracle/curlp. s and T are taken from the real code and not asserted. Score's big-integer fall-back is unreachable.",
          "DESIGN.md §3 C12"),
  "C13": ("race detector (go build -race) plus runtime monitors over boundary event logs: result/ordering monitor, bounded-return monitor with goroutine-dump classification, goroutine-accounting (leak) monitor, under stress (worker counts, simultaneous finds, cancellation instants, GOMAXPROCS, CPU hogs, delays injected in a harness context)",
